@@ -403,7 +403,11 @@ func (e *SpecEnv) evalCall(x *ast.CallExpr) Val {
 		body := ne.boolTerm(fl.Body.List[0].(*ast.ReturnStmt).Results[0])
 		rng := and(app("bvsle", lo, bv), app("bvslt", bv, hi))
 		if name == "govcForall" {
-			if pat := selectPattern(body, bv); pat != "" {
+			pat := selectPattern(body, bv)
+			if vc.curContract != nil && vc.curContract.Raw.InnerPatterns {
+				pat = selectPatternInner(body, bv)
+			}
+			if pat != "" {
 				// re-index so that the trigger has a bare bound variable as index:
 				// (select A (bvadd OFF k))  ~>  (select A q) with q = OFF + k
 				if arr, idx, ok := splitSelect(pat); ok && strings.HasPrefix(idx, "(bvadd ") && strings.HasSuffix(idx, " "+bv+")") {
@@ -496,7 +500,7 @@ func (e *SpecEnv) evalCall(x *ast.CallExpr) Val {
 	case "govcRVNumField":
 		vc.declareRVFuncs()
 		return Val{T: types.Typ[types.Int], L: []string{app("RVNumField", e.eval(x.Args[0]).L[0])}}
-	case "govcRVClass", "govcRVWidth", "govcRVEClass", "govcRVEWidth", "govcRVTypeTag":
+	case "govcRVClass", "govcRVWidth", "govcRVEClass", "govcRVEWidth", "govcRVTypeTag", "govcRVRow":
 		vc.declareRVFuncs()
 		return Val{T: types.Typ[types.Int], L: []string{app(strings.TrimPrefix(name, "govc"), e.eval(x.Args[0]).L[0], e.eval(x.Args[1]).L[0])}}
 	case "govcTypeTag":
@@ -518,6 +522,14 @@ func (e *SpecEnv) evalCall(x *ast.CallExpr) Val {
 			ls = append(ls, vc.rvLoad(e.st, n, sBV64, v.L[iObj], cellKey(v)))
 		}
 		return Val{T: t, L: ls}
+	case "govcRtypemsg":
+		// the message number whose struct type the reflect.Type t is (-1: not the type of a whole message)
+		v := e.eval(x.Args[0])
+		if len(v.L) != 2 {
+			e.fail(x, "rtypemsg of a non-interface value")
+		}
+		isMsg := and(app("bvuge", v.L[1], bvLit(64, rtypeMsgBase)), app("bvult", v.L[1], bvLit(64, rtypeMsgBase+rvElemV)))
+		return Val{T: types.Typ[types.Int], L: []string{ite(isMsg, app("bvsub", v.L[1], bvLit(64, rtypeMsgBase)), allOnes64)}}
 	case "govcBinsize":
 		// number of bytes binary.Write emits for the dynamic type of x (0: not a fixed-size scalar)
 		v := e.eval(x.Args[0])
@@ -577,6 +589,14 @@ func (e *SpecEnv) evalCall(x *ast.CallExpr) Val {
 	case "govcRvint":
 		v := e.eval(x.Args[0])
 		return Val{T: types.Typ[types.Int], L: []string{vc.rvLoad(e.st, "rvInt", sBV64, v.L[iObj], cellKey(v))}}
+	case "govcRvlen":
+		// the length reflect.Value.Len reports for the slice v holds
+		v := e.eval(x.Args[0])
+		hn := ghostHeapName("rvSliceLen")
+		hs := arrSort(sBV64, sBV64)
+		vc.ghostSorts[hn] = hs
+		made := sel(vc.heapTerm(e.st, hn, hs), v.L[iObj])
+		return Val{T: types.Typ[types.Int], L: []string{ite(eq(v.L[iMt], bvLit(64, rvSliceV)), made, vc.rvLoad(e.st, "rvLen", sBV64, v.L[iObj], cellKey(v)))}}
 	case "govcRvflt":
 		v := e.eval(x.Args[0])
 		return Val{T: types.Typ[types.Float64], L: []string{vc.rvLoad(e.st, "rvFlt", sF64, v.L[iObj], cellKey(v))}}
@@ -1103,6 +1123,28 @@ var _ = constant.MakeBool
 // selectPattern picks an E-matching trigger for a bounded quantifier: the first
 // (select A I) sub-term whose index mentions the bound variable and whose array
 // does not.
+// selectPatternInner prefers a select whose index is the bound variable itself or OFF+bv (which the caller
+// re-indexes to a bare variable): a trigger on the slice element rather than on a field of the element.
+func selectPatternInner(body, bv string) string {
+	rest := body
+	for {
+		i := strings.Index(rest, "(select ")
+		if i < 0 {
+			return selectPattern(body, bv)
+		}
+		t := selectPattern(rest[i:], bv)
+		if t == "" {
+			return selectPattern(body, bv)
+		}
+		if _, idx, ok := splitSelect(t); ok && (idx == bv || strings.HasPrefix(idx, "(bvadd ") && strings.HasSuffix(idx, " "+bv+")") && !containsSym(idx[len("(bvadd "):len(idx)-len(" "+bv+")")], bv)) {
+			return t
+		}
+		// look inside this term (its index may hold the simpler select)
+		j := strings.Index(rest[i:], t)
+		rest = rest[i+j+len("(select "):]
+	}
+}
+
 func selectPattern(body, bv string) string {
 	for i := 0; i+8 <= len(body); i++ {
 		if !strings.HasPrefix(body[i:], "(select ") {
